@@ -98,7 +98,7 @@ fn searches(tier: Tier) -> (Vec<Search>, f64) {
     match tier {
         Tier::Quick => (
             vec![Search { name: "quick", thorough_alphabet: false, depth_by_start: [cap(3), cap(2), cap(2)], level_at_depth: |s, d| if d <= 1 || (s == 0 && d <= 2) { 1 } else { 0 }, wall_share: 1.0 }],
-            wall_env.unwrap_or(48.0),
+            wall_env.unwrap_or(45.0),
         ),
         Tier::Thorough => (
             vec![
@@ -178,7 +178,7 @@ fn check_case(start: usize, ops: &[Op], req: Option<&Req>, level: usize) -> Resu
         }
         None => {
             let lat = oracle::lattice(level);
-            let (_, fails, _) = oracle::eval_state(env, &mut w, &m, &lat);
+            let (_, fails, _, _) = oracle::eval_state(env, &mut w, &m, &lat, &|| false);
             match fails.into_iter().next() {
                 Some((r, msg)) => Err(format!("[{}] {msg}", r.map(|r| r.key()).unwrap_or("whole lattice".into()))),
                 None => Ok(()),
@@ -326,6 +326,8 @@ struct Shared<'a> {
     outcomes: Mutex<BTreeMap<String, u64>>,
     /// state key -> highest lattice level already evaluated there (+1), across all searches
     evaluated: Mutex<BTreeMap<u128, usize>>,
+    /// state evaluations abandoned half-way because the wall budget ran out
+    abandoned: AtomicU64,
     t0: Instant,
 }
 
@@ -339,7 +341,7 @@ impl Shared<'_> {
 
     /// Evaluate the lattice of `level` in the state held by `w` unless an equal or larger lattice
     /// was already evaluated in that state. Returns (number of requests, violations).
-    fn evaluate(&self, w: &mut Wallet, m: &Model, key: u128, level: usize, start: usize, ops: &[Op]) -> (u64, bool) {
+    fn evaluate(&self, w: &mut Wallet, m: &Model, key: u128, level: usize, start: usize, ops: &[Op], stop: &dyn Fn() -> bool) -> (u64, bool) {
         {
             let mut g = self.evaluated.lock().unwrap();
             if g.get(&key).is_some_and(|l| *l > level) {
@@ -351,7 +353,11 @@ impl Shared<'_> {
             return (0, false); // sizing runs only
         }
         let env = self.env;
-        let (o, fails, n) = oracle::eval_state(env, w, m, &self.lats[level]);
+        let (o, fails, n, complete) = oracle::eval_state(env, w, m, &self.lats[level], stop);
+        if !complete {
+            self.evaluated.lock().unwrap().remove(&key);
+            self.abandoned.fetch_add(1, Ordering::Relaxed);
+        }
         self.add_outs(o);
         let mut tags = vec![];
         if m.locks.values().any(|(_, e)| *e >= m.target()) {
@@ -418,7 +424,7 @@ fn search(sh: &Shared, sp: &Search, deadline_s: f64, tot: &mut Totals) -> (Value
                 sh.failures.lock().unwrap().push(Found { start: si, ops: vec![], req: None, level: 0, msg });
             }
             let snap = Arc::new(db::snapshot(w.db.conn()));
-            let (n, _) = sh.evaluate(w, &m, key, (sp.level_at_depth)(si, 0), si, &[]);
+            let (n, _) = sh.evaluate(w, &m, key, (sp.level_at_depth)(si, 0), si, &[], &over);
             if n > 0 {
                 evaluated_states.fetch_add(1, Ordering::Relaxed);
                 sh.add_outs(vec![format!("state:start:{}", env.starts[si].0)]);
@@ -526,7 +532,7 @@ fn search(sh: &Shared, sp: &Search, deadline_s: f64, tot: &mut Totals) -> (Value
                 }
                 let expand = depth + 1 < sp.depth_by_start[src.start];
                 let snap = expand.then(|| Arc::new(db::snapshot(w.db.conn())));
-                let (n, bad) = sh.evaluate(w, &m, *key, (sp.level_at_depth)(src.start, depth + 1), src.start, &ops);
+                let (n, bad) = sh.evaluate(w, &m, *key, (sp.level_at_depth)(src.start, depth + 1), src.start, &ops, &over);
                 evals.fetch_add(n, Ordering::Relaxed);
                 if n > 0 {
                     evaluated_states.fetch_add(1, Ordering::Relaxed);
@@ -537,7 +543,7 @@ fn search(sh: &Shared, sp: &Search, deadline_s: f64, tot: &mut Totals) -> (Value
                 Some(Node { snap, model: m, start: src.start, history: ops })
             },
         );
-        let sk = skipped.load(Ordering::Relaxed);
+        let sk = skipped.load(Ordering::Relaxed) + sh.abandoned.swap(0, Ordering::Relaxed);
         states += chosen.len() as u64;
         let mut nf: Vec<Node> = next.into_iter().flatten().collect();
         nf.sort_by(|a, b| (a.start, &a.history).cmp(&(b.start, &b.history)));
@@ -598,7 +604,7 @@ pub fn run(args: &Args) -> i32 {
     if std::env::var("VERIF_PROGRESS").is_ok() {
         eprintln!("setup {t_setup:.1}s");
     }
-    let sh = Shared { env, lats: [oracle::lattice(0), oracle::lattice(1), oracle::lattice(2)], failures: Mutex::new(vec![]), outcomes: Mutex::new(BTreeMap::new()), evaluated: Mutex::new(BTreeMap::new()), t0 };
+    let sh = Shared { env, lats: [oracle::lattice(0), oracle::lattice(1), oracle::lattice(2)], failures: Mutex::new(vec![]), outcomes: Mutex::new(BTreeMap::new()), evaluated: Mutex::new(BTreeMap::new()), abandoned: AtomicU64::new(0), t0 };
     run.set_rule(
         "explicit-state BFS on the real SQLite wallet from 3 start states (fully scanned / scanned with a gap at the start / scanned to a pre-NU6.3 tip) of the C08 universe; operations: lock_outputs(owner, note set, tip+1|tip+50), \
          unlock_output, clear_locked_outputs, store_transactions_to_be_sent(real pending transaction), Advance(k blocks), Mine(pending), truncate_to_height, FillGap, proposals with a lock request; \
@@ -615,6 +621,7 @@ pub fn run(args: &Args) -> i32 {
     let mut tot = Totals::default();
     let mut descs = serde_json::Map::new();
     let mut all_done = true;
+    let mut depth1_done = true;
     for sp in &sps {
         let now = t0.elapsed().as_secs_f64();
         let deadline = now + (wall_cap_s - now).max(0.0) * sp.wall_share;
@@ -623,6 +630,7 @@ pub fn run(args: &Args) -> i32 {
             run.cap_hit(c);
             all_done = false;
         }
+        depth1_done &= d["completed_depth"].as_u64().unwrap_or(0) >= 1 || std::env::var("C08_DEPTH").is_ok();
         descs.insert(sp.name.to_string(), d);
     }
     if std::env::var("VERIF_PROGRESS").is_ok() {
@@ -663,7 +671,8 @@ pub fn run(args: &Args) -> i32 {
         let key = format!("{}|{}", ops_key(env, x.start, &x.ops), x.req.as_ref().map(|r| r.key()).unwrap_or("-".into()));
         run.fail("state", key, x.msg, case_json(x.start, &x.ops, x.req.as_ref(), x.level));
     }
-    // Vacuity guards. Outcomes that need depth 3 are demanded only when the search got that far.
+    // Vacuity guards. Outcomes that need depth 2-3 are demanded only when the search completed.
+    run.require(depth1_done || run.failure_count() > 0, "the wall budget was exhausted before depth 1 of a search completed (machine too loaded): nothing meaningful explored");
     let debug_run = std::env::var("C08_DEPTH").is_ok() || std::env::var("C08_NOEVAL").is_ok();
     let has = |k: &str| outcomes.contains_key(k) || run.failure_count() > 0 || debug_run;
     for k in [
